@@ -14,6 +14,7 @@ about every token.
 from __future__ import annotations
 
 import ast
+import hashlib
 import io
 import json
 import logging
@@ -40,7 +41,8 @@ MANIFEST = {
 EXPLANATION = MANIFEST["level_text"]
 TRUSTED = [
     "pyvc VC generator, slicer, regex translation, IEEE-754 encoding of float",
-    "z3 5.1.0 / cvc5 1.0.3",
+    "z3 5.1.0 / cvc5 1.4.0",
+    "str.encode('utf-8'[, errors]): raises UnicodeEncodeError exactly when errors is 'strict' and the string holds a lone surrogate (json.loads can produce one); otherwise returns bytes",
     "json.loads: raises ValueError/UnicodeDecodeError or returns a JSON value; json.dumps renders exactly the given keys",
     "falcon: HTTPServiceUnavailable(retry_after=x) -> 503 with Retry-After: x; HTTPInternalServerError -> 500; default resp.status is 200; responder exceptions that are not HTTPError become 500",
     "hashlib.sha256: the digest does not reveal the token (modelled as a fresh symbol)",
@@ -255,6 +257,8 @@ def native_case(inputs):
     token = inputs.get("token", "opaque-1")
     if not isinstance(token, str):
         token = "opaque-1"
+    if inputs.get("token_has_lone_surrogate") and not any(0xD800 <= ord(c) <= 0xDFFF for c in token):
+        token = "\ud800" + token[1:] if token else token  # same length: the caps are decided on len(token)
     body = inputs.get("body", "token_str")
     cl = None
     raw = {
@@ -378,7 +382,7 @@ def replay_post(inputs, ob):
 
 def search_post(ob, seed):
     """Native hunt over representative scenarios when the solver's model could not be replayed."""
-    toks = ["opaque-credential-1", "aaa.bbb.ccc", "aaa.bbb.", "", "x" * (MAXTOK + 1)]
+    toks = ["opaque-credential-1", "aaa.bbb.ccc", "aaa.bbb.", "", "x" * (MAXTOK + 1), "\ud800-lone-surrogate"]
     for caller in CALLERS:
         for body in BODIES:
             for mode in RESOLVER:
@@ -504,11 +508,21 @@ def on_post(S):
 
     S.handlers[json.loads] = loads
 
-    def token_digest(S, tok):
-        S.event("digest", tok)
-        return digest
+    # token_digest is read from the real source: str.encode and hashlib by contract.  A str that
+    # came out of json.loads may hold a lone surrogate, which strict UTF-8 refuses to encode.
+    S.inline.add("token_digest")
+    has_surrogate = S.bool("token_has_lone_surrogate")
 
-    S.handlers["token_digest"] = token_digest
+    def str_encode(S, s, *a, **kw):
+        errors = a[1] if len(a) > 1 else kw.get("errors", "strict")
+        if errors == "strict" and S.fork(has_surrogate):
+            raise PyRaise(SExc(UnicodeEncodeError, ("utf-8", s, 0, 1, "surrogates not allowed")))
+        S.event("digest", s)
+        return SObj(None, kind="Utf8", of=s)
+
+    S.handlers["SStr.encode"] = str_encode
+    S.handlers[hashlib.sha256] = lambda S, b=b"": SObj(None, kind="Hash", of=b)
+    S.handlers["Hash.hexdigest"] = lambda S, h: digest
     ident_principal, ident_name = S.str("resolved_principal"), S.str("token_name")
     retry_after = S.int("retry_after")
     ttl = None
